@@ -856,6 +856,7 @@ class Analysis:
                 if k in et and h in sb.recs and dxfparse.rec_type(sb.recs[h]) in ("DICTIONARY", "ACDBDICTIONARYWDFLT"):
                     sig.setdefault(h, et[k])
         anchors_s = {norm(a) for a in info["anchors"]}
+        self.anchor_map = {norm(a): norm(b) for a, b in info["anchors"].items()}
         work = [(s, t) for s, t in sigma.items()]
         self.work, self.old, self.image = work, old, set(sig.values())
         self.deferred = []
@@ -1003,6 +1004,8 @@ class Analysis:
                             continue
                         if svn in sig and sig[svn] == tvn:
                             continue
+                        if self.anchor_map.get(svn) == tvn:
+                            continue  # owner of a loaded entity: the layout it was loaded into
                         if typ in ("VERTEX", "ATTRIB", "SEQEND") and c == 330 and t in ta.children.get(tvn, ()):
                             continue  # sub-entity owned by its parent (ezdxf writes either the parent or the parent's owner)
                         if (typ, c) in TARGET_DEFAULT_POINTERS:
